@@ -480,7 +480,7 @@ func (r *run) lookup(sigHex string) drv.Step {
 	r.mu.Lock()
 	defer r.mu.Unlock()
 	if sigHex == "" {
-		return drv.Step{"v": 0, "k": 0, "e": 0, "i": 0, "blank": true}
+		return drv.Step{"v": 0, "k": -1, "e": 0, "i": 0}
 	}
 	if t, ok := r.sigs[sigHex]; ok {
 		return t
@@ -581,6 +581,9 @@ func (r *run) apiFront(wr http.ResponseWriter, req *http.Request) {
 		ev["share"] = int(share)
 		ev["v"] = r.valOf(parts[4])
 		ev["by"] = r.whoSigned(authRoot(unhex(parts[2]), unhex(parts[4]), share), bearer)
+		if req.Header.Get("Authorization") == "" {
+			ev["noauth"] = true
+		}
 	default:
 		ev["m"] = "?" + req.Method
 	}
@@ -634,45 +637,48 @@ func (r *run) absFull(f wireFull) drv.Step {
 	return drv.Step{"e": ae, "i": r.absIdx(f.Index.v), "sigs": sigs}
 }
 
-// tamper: what a faulty API could deliver instead.
+// tamper: what a faulty API could deliver instead (the kinds of ExitFlowMC.Tamper).
 func (r *run) tamper(f wireFull, t drv.Step) wireFull {
 	n := len(f.Signatures)
-	j := drv.Num(t["j"])
 	if n == 0 {
 		return f
 	}
-	j %= n
 	switch drv.Str(t["kind"]) {
 	case "blank":
-		f.Signatures[j] = ""
+		f.Signatures[0] = ""
 	case "drop":
-		f.Signatures = append(append([]string{}, f.Signatures[:j]...), f.Signatures[j+1:]...)
+		f.Signatures = f.Signatures[1:]
+	case "droplast":
+		f.Signatures = f.Signatures[:n-1]
 	case "dup":
-		f.Signatures[(j+1)%n] = f.Signatures[j]
+		f.Signatures[n-1] = f.Signatures[0]
 	case "rev":
 		for a, b := 0, n-1; a < b; a, b = a+1, b-1 {
 			f.Signatures[a], f.Signatures[b] = f.Signatures[b], f.Signatures[a]
 		}
 	case "rot":
 		f.Signatures = append(f.Signatures[1:], f.Signatures[0])
-	case "other": // a partial signature the API has seen for something else (another epoch / validator), if any
-		want := t["tok"].(map[string]any)
-		r.mu.Lock()
-		for h, tok := range r.sigs {
-			if drv.Num(tok["v"]) == drv.Num(want["v"]) && drv.Num(tok["k"]) == drv.Num(want["k"]) &&
-				drv.Num(tok["e"]) == drv.Num(want["e"]) && drv.Num(tok["i"]) == drv.Num(want["i"]) {
-				f.Signatures[j] = h
+	case "other": // the first signature's share signs the other epoch (a partial the API could have kept from earlier)
+		tok := r.lookup(f.Signatures[0])
+		v, k := drv.Num(tok["v"]), drv.Num(tok["k"])
+		if v >= 1 && k >= 1 {
+			e := realEpoch[3-drv.Num(tok["e"])]
+			sd := r.sigData(e, r.realIdx(drv.Num(tok["i"])))
+			if s, err := tbls.Sign(r.m.shares[v-1][k-1], sd[:]); err == nil {
+				h := "0x" + hex.EncodeToString(s[:])
+				r.remember(h, r.token(e, r.realIdx(drv.Num(tok["i"])), s[:]))
+				f.Signatures[0] = h
 			}
 		}
-		r.mu.Unlock()
 	case "junk": // a well-formed signature by a key nobody knows
 		sk, _ := tbls.GenerateSecretKey()
 		s, _ := tbls.Sign(sk, []byte("junk"))
-		f.Signatures[j] = "0x" + hex.EncodeToString(s[:])
+		f.Signatures[0] = "0x" + hex.EncodeToString(s[:])
 	case "epoch":
-		f.Epoch = strconv.FormatUint(realEpoch[drv.Num(t["e"])], 10)
+		e, _ := strconv.ParseUint(f.Epoch, 10, 64)
+		f.Epoch = strconv.FormatUint(realEpoch[3-r.absEpoch(e)], 10)
 	case "index":
-		f.Index.v = r.realIdx(drv.Num(t["iv"]))
+		f.Index.v = r.realIdx(0)
 	}
 
 	return f
@@ -999,9 +1005,7 @@ func (r *run) step(c int, in instr) {
 	op, ok := r.cmdOp[c]
 	g := r.pending[op]
 	if !ok || g == nil || r.running[op] != c {
-		r.log(drv.Step{"ev": "NoReq", "c": c})
-
-		return
+		return // the command has returned (or was never started): nothing to let through
 	}
 	delete(r.pending, op)
 	g.release <- in
@@ -1136,7 +1140,7 @@ func (r *run) plant(st drv.Step) {
 	if err := os.WriteFile(r.exitFile(op, v), b, 0o600); err != nil {
 		r.w.t.Fatal(err)
 	}
-	r.log(drv.Step{"ev": "Plant", "op": op, "v": v, "exit": r.absExit(x)})
+	r.log(drv.Step{"ev": "Plant", "op": op, "v": v, "sv": sv, "shares": st["shares"], "e": drv.Num(st["e"]), "iv": drv.Num(st["iv"]), "exit": r.absExit(x)})
 }
 
 func (w *world) exec(sid int, sched []drv.Step) []drv.Step {
@@ -1167,7 +1171,7 @@ func (w *world) exec(sid int, sched []drv.Step) []drv.Step {
 		}
 		r.exitDir[op] = d
 	}
-	r.events = append(r.events, drv.Step{"ev": "Reset", "sid": sid, "n": m.n, "t": m.t, "nv": m.nv, "st": r.status})
+	r.events = append(r.events, drv.Step{"ev": "Reset", "sid": sid, "n": m.n, "t": m.t, "nv": m.nv, "st": append([]string{}, r.status...)})
 	for _, st := range sched[1:] {
 		if r.hung {
 			break
@@ -1181,8 +1185,7 @@ func (w *world) exec(sid int, sched []drv.Step) []drv.Step {
 			r.log(drv.Step{"ev": "Status", "v": v, "st": drv.Str(st["st"])})
 		case "Start":
 			if _, busy := r.running[drv.Num(st["op"])]; busy {
-				r.log(drv.Step{"ev": "Busy", "op": drv.Num(st["op"])})
-				continue
+				continue // the operator's previous command is still running: not started
 			}
 			r.start(st)
 		case "Step":
